@@ -15,7 +15,9 @@ def _model(spec):
         # the path, the states handed from step to step must not
         import mudslide
         m = mudslide.models.scattering_models["shin-metiu"](nstates=spec["N"], **spec.get("kwargs", {}))
-        return m, random_rho(rng, spec["N"], "pure"), rng
+        rho_ = np.zeros((spec["N"], spec["N"]), dtype=np.complex128)
+        rho_[spec["state"], spec["state"]] = 1.0      # pure active state: the coherences that build up carry the coupling signs
+        return m, rho_, rng
     m = SynthModel(rng, spec["N"], spec["n"], scale=0.03, gap=0.02, quad=0.004, mass=10 ** rng.uniform(2.5, 3.5, size=spec["n"]),
                    representation=spec.get("representation", "adiabatic"))
     rho0 = random_rho(rng, spec["N"], "pure")
@@ -125,6 +127,13 @@ def oracle_order(args):
         out[name] = {"differences": e, "ratios": ratios, "ratio": ratios[-1]}
         if e[1] > 1e-8 * sc and ratios[0] < 3.0 and ratios[1] < 3.0:
             bad.append("%s: ratios %.2f, %.2f" % (name, ratios[0], ratios[1]))
+        elif spec.get("strict") and e[2] > 1e-11 * sc and not all(3.0 <= r <= 5.5 for r in ratios):
+            # a directed run known to be deep in the asymptotic regime on a smooth model (ratios 3.997..4.009 over 30 initial
+            # conditions on the unchanged tree): scattered ratios are evidence there
+            bad.append("%s: ratios %.2f, %.2f (asymptotic run)" % (name, ratios[0], ratios[1]))
+        elif spec.get("strict") and name == "rho" and e[2] > float(spec.get("fine_bound", 1.0)):
+            # ... and whose last step-halving difference is 1.2e-7 at most on the unchanged tree (30 initial conditions)
+            bad.append("rho: still changes by %.3g between dt/4 and dt/8 (at most 1.2e-7 expected for this run)" % e[2])
     if not bad and spec.get("cross", True):
         # "converge to the EXACT solution": a scheme can converge at second order to something else. The two electronic
         # integrators discretise the same equation, so at the finest level they differ by no more than their own errors, which
@@ -235,7 +244,7 @@ def run(ctx):
             spec["representation"] = "diabatic"
         if i % 31 == 8:
             spec = dict(builtin="shin-metiu", N=3, n=1, model_seed=int(rng.integers(1, 10 ** 6)), x0=[float(rng.uniform(-6.8, -6.4))],
-                        p0=[float(rng.uniform(12.0, 16.0))], state=0, dt=4.0, steps=30, integ=["exp", "linear-rk4"][(i // 31) % 2], max_edt=0.5)
+                        p0=[float(rng.uniform(12.0, 16.0))], state=0, dt=4.0, steps=60, strict=True, fine_bound=2e-5, integ=["exp", "linear-rk4"][(i // 31) % 2], max_edt=0.5)
         ok, obs, req, text = oracle_order(spec)
         ctx.case(("order", spec["integ"], N, n, spec.get("representation", "adiabatic")))
         ctx.count("richardson_triples")
